@@ -23,6 +23,7 @@ spec fn seen_is<P: AsRef<str>, V, W>(n: NfaBuilder<char, W>, items: Seq<(P, V)>,
 // They mutate states through RefCell from &self, which Verus cannot express; under R9 the stubs take &mut self.
 // The bounded stand-in evaluates exactly these clauses (and the stronger Aho-Corasick ones) on every NFA it builds.
 //@include_subst ghost_pass.rs u8=char
+//@include_subst ghost_lf.rs u8=char
 impl<V: Copy> NfaBuilder<char, V> {
     // contracts proved on the real functions by the unit pass_cw (same text: pass_heads.inc)
     #[verifier::external_body]
@@ -376,6 +377,8 @@ spec fn cwv_post<P: AsRef<str>, V>(st: Seq<State>, tb: Seq<u32>, outs: Seq<Outpu
             // all kinds: the trie facts from which the soundness of the leftmost stream follows (units lm_sound_*)
             && add_inv(n) && nfa_tree(n) && nfa_links(n, lm_of(kind)) && sound_facts(n)
             && (!(kind is Standard) ==> lm_opt_facts(n))
+            // C04: the registered patterns in terms of the input order (a pattern is not registered only if an earlier, registered proper prefix shadows it)
+            && lf_inv(n, item_pats(items), items.len() as int)
             && values_are(n, items, items.len() as int)
             && (kind is Standard ==> searches_ok_cw(st, tb, outs, n))
             && (!(kind is Standard) ==> lm_searches_ok_cw(st, tb, outs, n))
@@ -389,7 +392,7 @@ proof fn lemma_cwv_post<P: AsRef<str>, V>(nfa: NfaBuilder<char, V>, st: Seq<Stat
         pow2(bl), asz <= bl, st.len() > 0, st.len() as int % (bl as int) == 0, st.len() <= u32::MAX,
         forall|i: int| 0 <= i < st.len() ==> ((#[trigger] st[i]).base.is_some() ==> st[i].base.unwrap()@ < st.len()),
         exists|idmap: Seq<u32>| cw_built(st, tb, nfa, idmap),
-        nfa.states@.len() == num_states + 1, add_inv(nfa), nfa.match_kind == kind, sound_facts(nfa), !(kind is Standard) ==> lm_opt_facts(nfa),
+        nfa.states@.len() == num_states + 1, add_inv(nfa), nfa.match_kind == kind, sound_facts(nfa), !(kind is Standard) ==> lm_opt_facts(nfa), lf_inv(nfa, item_pats(items), items.len() as int),
     ensures cwv_post(st, tb, nfa.outputs@, num_states, items, kind),
 {
     reveal(cwv_post);
